@@ -127,16 +127,11 @@ def _run_one(it):
         rec = {}
         try:
             if it.get("sequence"):
-                # the same process compiled for another device of this compiler class just before (same gates and modes, the squeezer's
-                # phase hard-wired to 0.3 there): the second compilation is judged against ITS device
-                other = sf.Device(spec=device_spec(target, tmax, sphase=0.3))
-                warm = sf.TDMProgram(N=2)
-                with warm.context(*[arrays[k] for k in PARS]) as (p, q):
-                    ops.Sgate(p[0], 0.3) | q[1]
-                    ops.Rgate(p[1]) | q[0]
-                    ops.BSgate(p[2], 0.0) | (q[0], q[1])
-                    ops.MeasureHomodyne(p[3]) | q[0]
-                warm.compile(device=other, compiler=target)
+                # the same process compiled this program for its own device just before; now it is compiled for another device of
+                # the same compiler class (same gates and modes, the squeezer's phase hard-wired to 0.3): the result is judged
+                # against THAT device -- a refusal, or a circuit with the phase the second device fixes
+                prog.compile(device=dev, compiler=target)
+                dev = sf.Device(spec=device_spec(target, tmax, sphase=0.3))
             comp = prog.compile(device=dev, compiler=target)
         except (CircuitError, ValueError) as e:
             rec["refused"] = "%s: %s" % (type(e).__name__, str(e)[:120])
@@ -165,6 +160,8 @@ def _run_one(it):
                 vs = values(x)
                 ps += [int(round(v * 1e6)) for v in vs]
                 d = dom_of(ks[a]) if a < len(ks) and ks[a] is not None else ZERO
+                if it.get("sequence") and name == "Sgate" and a == 1:
+                    d = [[300000 - 1, 300000 + 1]]
                 dom += [d] * len(vs)
             proj.append({"name": name, "modes": modes, "p": ps, "dom": dom, "dag": bool(getattr(cmd.op, "dagger", False))})
         rec.update(compiled=proj, perm=perm, bins=len(pars[0]) if pars else 0, maxbins=tmax)
